@@ -186,3 +186,119 @@ Proof.
     fold (alim ch' rest). replace ch' with (fst (canRunApp wc tt (c :: t) a (child_or_new wc tt c q))) by (rewrite E; reflexivity).
     apply IH. apply alim_child_or_new. assumption.
 Qed.
+
+(* ---- decrease ---- *)
+Definition dec_usage (u : ores) (old : ores) : ores := oprune (SubFrom old u).
+Definition dec_apps (a : app) (rm : bool) (l : list app) : list app := if rm then del_app a l else l.
+
+Lemma decrease_cons x c t a u rm q :
+  decrease (x :: c :: t) a u rm q =
+  match find_child c q with
+  | None => (q, false)
+  | Some ch => let '(ch', r) := decrease (c :: t) a u rm ch in
+               dec_here a u rm (if r then del_child c q else set_child c ch' q)
+  end.
+Proof. reflexivity. Qed.
+
+Lemma removable_facts q : removable q = true ->
+  q_children q = [] /\ q_apps q = [] /\ IsZero (q_usage q) = true /\ q_maxApps q = 0 /\ IsZero (q_max q) = true.
+Proof.
+  unfold removable. intros H. repeat (apply andb_true_iff in H; destruct H as [H ?]).
+  destruct (q_children q); [|discriminate]. destruct (q_apps q); [|discriminate].
+  repeat split; try assumption. apply N.eqb_eq. assumption.
+Qed.
+Lemma sub_at_no_children c rest q : q_children q = [] -> sub_at (c :: rest) q = None.
+Proof. intros H. cbn [sub_at]. unfold find_child. rewrite H. reflexivity. Qed.
+
+Lemma dec_here_fields a u rm q :
+  let q' := fst (dec_here a u rm q) in
+  snd (dec_here a u rm q) = removable q' /\
+  q_usage q' = dec_usage u (q_usage q) /\ q_apps q' = dec_apps a rm (q_apps q) /\
+  q_max q' = q_max q /\ q_maxApps q' = q_maxApps q /\ q_children q' = q_children q.
+Proof. destruct q; cbn. repeat split; reflexivity. Qed.
+
+Definition dec_post (a : app) (u : ores) (rm : bool) (tl : list qname) (q q' : qt) : Prop :=
+  (forall names, if is_prefix names tl
+                 then araw q' names = dec_usage u (araw q names) \/
+                      (sub_at names q' = None /\ IsZero (dec_usage u (araw q names)) = true)
+                 else araw q' names = araw q names) /\
+  (forall names, aapps q' names = if is_prefix names tl then dec_apps a rm (aapps q names) else aapps q names) /\
+  (forall names l, alim q names = Some l -> real l = true -> alim q' names = Some l).
+
+Lemma decrease_spec a u rm tl : forall x q q' b,
+  decrease (x :: tl) a u rm q = (q', b) -> (exists m, sub_at tl q = Some m) ->
+  b = removable q' /\ dec_post a u rm tl q q'.
+Proof.
+  induction tl as [|c t IH]; intros x q q' b H (m & Hm).
+  - change (decrease [x] a u rm q) with (dec_here a u rm q) in H.
+    destruct (dec_here_fields a u rm q) as (Hb & Hu & Ha & Hmx & Hma & Hch). rewrite H in *. cbn [fst snd] in *.
+    split; [assumption|]. split; [|split].
+    + intros [|c' rest]; cbn [is_prefix].
+      * left. unfold araw. cbn [sub_at]. assumption.
+      * unfold araw. cbn [sub_at]. unfold find_child. rewrite Hch. reflexivity.
+    + intros [|c' rest]; cbn [is_prefix].
+      * unfold aapps. cbn [sub_at]. assumption.
+      * unfold aapps. cbn [sub_at]. unfold find_child. rewrite Hch. reflexivity.
+    + intros [|c' rest] l Hl _.
+      * unfold alim in *. cbn [sub_at] in *. rewrite Hmx, Hma. assumption.
+      * unfold alim in *. cbn [sub_at] in *. unfold find_child in *. rewrite Hch. assumption.
+  - rewrite decrease_cons in H. cbn [sub_at] in Hm. destruct (find_child c q) as [ch|] eqn:Ec; [|discriminate].
+    destruct (decrease (c :: t) a u rm ch) as [ch' r] eqn:Ed.
+    destruct (IH c ch ch' r Ed (ex_intro _ m Hm)) as (Hr & Hpu & Hpa & Hpl).
+    set (q1 := if r then del_child c q else set_child c ch' q) in *.
+    destruct (dec_here_fields a u rm q1) as (Hb & Hu & Ha & Hmx & Hma & Hch). rewrite H in *. cbn [fst snd] in *.
+    assert (F1 : q_usage q1 = q_usage q /\ q_apps q1 = q_apps q /\ q_max q1 = q_max q /\ q_maxApps q1 = q_maxApps q).
+    { subst q1. destruct r.
+      - apply q_fields_del_child.
+      - destruct (q_fields_set_child c ch' q) as (A & B & C & D & _). repeat split; assumption. }
+    destruct F1 as (F1 & F2 & F3 & F4).
+    assert (Hsub : forall c' rest, sub_at (c' :: rest) q' = sub_at (c' :: rest) q1).
+    { intros c' rest. cbn [sub_at]. unfold find_child. rewrite Hch. reflexivity. }
+    assert (Hsub1 : forall c' rest, sub_at (c' :: rest) q1 =
+                     if c' =? c then (if r then None else sub_at rest ch') else sub_at (c' :: rest) q).
+    { intros c' rest. subst q1. destruct r.
+      - rewrite sub_at_del_child. destruct (c' =? c); reflexivity.
+      - rewrite sub_at_set_child. destruct (c' =? c); reflexivity. }
+    assert (Hq : forall rest, sub_at (c :: rest) q = sub_at rest ch) by (intros rest; cbn [sub_at]; rewrite Ec; reflexivity).
+    assert (Ar' : forall c' rest, araw q' (c' :: rest) = if c' =? c then (if r then None else araw ch' rest) else araw q (c' :: rest)).
+    { intros c' rest. unfold araw. rewrite Hsub, Hsub1. destruct (c' =? c); [destruct r|]; reflexivity. }
+    assert (Ar : forall rest, araw q (c :: rest) = araw ch rest) by (intros rest; unfold araw; rewrite Hq; reflexivity).
+    assert (Ap' : forall c' rest, aapps q' (c' :: rest) = if c' =? c then (if r then [] else aapps ch' rest) else aapps q (c' :: rest)).
+    { intros c' rest. unfold aapps. rewrite Hsub, Hsub1. destruct (c' =? c); [destruct r|]; reflexivity. }
+    assert (Ap : forall rest, aapps q (c :: rest) = aapps ch rest) by (intros rest; unfold aapps; rewrite Hq; reflexivity).
+    assert (Al' : forall c' rest, alim q' (c' :: rest) = if c' =? c then (if r then None else alim ch' rest) else alim q (c' :: rest)).
+    { intros c' rest. unfold alim. rewrite Hsub, Hsub1. destruct (c' =? c); [destruct r|]; reflexivity. }
+    assert (Al : forall rest, alim q (c :: rest) = alim ch rest) by (intros rest; unfold alim; rewrite Hq; reflexivity).
+    split; [assumption|]. split; [|split].
+    + intros [|c' rest].
+      * cbn [is_prefix]. left. unfold araw. cbn [sub_at]. rewrite Hu, F1. reflexivity.
+      * rewrite is_prefix_cons, Ar'. destruct (N.eqb_spec c' c) as [->|Hne]; cbn [andb]; [|reflexivity].
+        rewrite Ar. specialize (Hpu rest). destruct r.
+        2:{ destruct (is_prefix rest t); [|exact Hpu]. destruct Hpu as [Hpu|(Hn & Hpu)]; [left; exact Hpu|right].
+            split; [rewrite Hsub, Hsub1, N.eqb_refl; exact Hn|exact Hpu]. }
+        symmetry in Hr. destruct (removable_facts ch' Hr) as (Hnc & _ & Hz & _).
+        assert (Hz' : IsZero (araw ch' rest) = true).
+        { unfold araw. destruct rest; [cbn; assumption|rewrite (sub_at_no_children _ _ _ Hnc); reflexivity]. }
+        destruct (is_prefix rest t) eqn:Ep.
+        -- right. split; [rewrite Hsub, Hsub1, N.eqb_refl; reflexivity|].
+           destruct Hpu as [Hpu|(_ & Hpu)]; [rewrite <- Hpu|]; assumption.
+        -- rewrite <- Hpu. unfold araw. destruct rest as [|c2 r2]; [destruct t; discriminate|].
+           rewrite (sub_at_no_children _ _ _ Hnc). reflexivity.
+    + intros [|c' rest].
+      * cbn [is_prefix]. unfold aapps. cbn [sub_at]. rewrite Ha, F2. reflexivity.
+      * rewrite is_prefix_cons, Ap'. destruct (N.eqb_spec c' c) as [->|Hne]; cbn [andb]; [|reflexivity].
+        rewrite Ap. specialize (Hpa rest). destruct r; [|exact Hpa].
+        symmetry in Hr. destruct (removable_facts ch' Hr) as (Hnc & Hna & _).
+        assert (Hz' : aapps ch' rest = []).
+        { unfold aapps. destruct rest; [cbn; assumption|rewrite (sub_at_no_children _ _ _ Hnc); reflexivity]. }
+        rewrite Hz' in Hpa. exact Hpa.
+    + intros [|c' rest] l Hl Hreal.
+      * unfold alim in *. cbn [sub_at] in *. rewrite Hmx, Hma, F3, F4. assumption.
+      * rewrite Al'. destruct (N.eqb_spec c' c) as [->|Hne]; [|exact Hl].
+        rewrite Al in Hl. specialize (Hpl rest l Hl Hreal). destruct r; [|exact Hpl].
+        exfalso. symmetry in Hr. destruct (removable_facts ch' Hr) as (Hnc & _ & _ & Hm0 & Hmz).
+        unfold alim in Hpl. destruct rest as [|c2 r2].
+        -- cbn [sub_at] in Hpl. injection Hpl as <-. unfold real in Hreal. cbn [fst snd] in Hreal.
+           rewrite Hm0, Hmz in Hreal. discriminate.
+        -- rewrite (sub_at_no_children _ _ _ Hnc) in Hpl. discriminate.
+Qed.
